@@ -33,8 +33,11 @@ fn mask_dates(w: &[u8]) -> Vec<u8> {
 }
 
 fn modelled(c: &Case) -> bool {
-    !c.rounds.iter().any(|r| r.rst || r.wr.iter().any(|w| matches!(w, W::Z | W::E)) || r.fl.iter().any(|f| matches!(f, F::E)))
-        && !c.handlers.iter().any(|h| h.contains(&HAct::Drop))
+    // a dropped payload is modelled only in drain mode: chunked body, Drop as the first action
+    let drops_ok = c.handlers.iter().enumerate().all(|(i, h)| {
+        !h.contains(&HAct::Drop) || (matches!(c.items.get(i), Some(Item::Chunked { .. })) && h.first() == Some(&HAct::Drop))
+    });
+    !c.rounds.iter().any(|r| r.rst || r.wr.iter().any(|w| matches!(w, W::Z | W::E)) || r.fl.iter().any(|f| matches!(f, F::E))) && drops_ok
 }
 
 /// F21 class (a predicate on the case): the first handler starts by waiting, at least
@@ -48,8 +51,8 @@ fn known_class(c: &Case) -> &'static str {
     let mut ends = vec![];
     let mut off = 0;
     for it in &c.items {
-        if let Item::Req { h, b } = it {
-            off += h + b.unwrap_or(0);
+        if let Some((_, t)) = item_lens(it) {
+            off += t;
             ends.push(off);
         }
     }
@@ -77,16 +80,16 @@ fn complete_requests(c: &Case, taken: usize) -> usize {
     let mut off = 0;
     let mut n = 0;
     for it in &c.items {
-        match it {
-            Item::Req { h, b } => {
-                off += h + b.unwrap_or(0);
+        match item_lens(it) {
+            Some((_, t)) => {
+                off += t;
                 if off <= taken {
                     n += 1;
                 } else {
                     break;
                 }
             }
-            Item::Endless => break,
+            None => break,
         }
     }
     n
@@ -150,6 +153,12 @@ fn oracle(c: &Case, out: &RunOut) -> Verdict {
             why = format!(
                 "stall: {} complete requests taken from the socket, only {} dispatched, every dispatched one answered and flushed, no waker pending",
                 complete, last.started
+            );
+        } else if out.offered > last.taken && resp_done == last.started && last.body_open == 0 && last.produced == last.accepted && !rst {
+            stalled = true;
+            why = format!(
+                "stall: {} of {} request bytes still unread at the socket, every dispatched request answered and flushed, no handler running, no waker pending",
+                out.offered - last.taken, out.offered
             );
         } else if last.produced > last.accepted && !sock_err {
             stalled = true;
@@ -336,7 +345,7 @@ fn body(rng: &mut Rng) -> RespBody {
 }
 
 fn gen_wake(rng: &mut Rng) -> Case {
-    let kind = rng.below(10);
+    let kind = rng.below(12);
     let wbs = *rng.pick(&[64usize, 4096, 32768]);
     let mut items = vec![];
     let mut handlers = vec![];
@@ -463,6 +472,35 @@ fn gen_wake(rng: &mut Rng) -> Case {
                 rounds.push(Round { add, wr: wr(rng), hw: rng.chance(1, 2), ..Default::default() });
             }
             rounds.push(Round { add: 0, eof: rng.chance(1, 2), wr: wr(rng), hw: true, ..Default::default() });
+        }
+        9 | 10 => {
+            // drain mode at the read-buffer cap: chunked body, the handler drops the payload and
+            // answers early, far more than MAX_BUFFER_SIZE readable at once, a request behind it
+            name = "drop-drain";
+            let b = *rng.pick(&[150_000usize, 260_000, 384_000, 600_000]);
+            let cs = *rng.pick(&[1000usize, 8192, 65_536, 1 << 20]);
+            items.push(Item::Chunked { h: CHUNKED_BASE + rng.below(20) as usize, b, cs });
+            let mut h = vec![HAct::Drop];
+            if rng.chance(1, 3) {
+                h.push(HAct::Pend);
+            }
+            h.push(HAct::Respond(RespBody::None));
+            handlers.push(h);
+            for _ in 0..rng.range(1, 3) {
+                items.push(Item::Req { h: 18, b: None });
+                handlers.push(vec![HAct::Respond(RespBody::None)]);
+            }
+            let total: usize = items.iter().map(|i| item_lens(i).map_or(0, |l| l.1)).sum();
+            if rng.chance(2, 3) {
+                rounds.push(Round { add: total, wr: vec![W::A(1 << 20); 3], ..Default::default() });
+            } else {
+                let first = rng.range(1, total as u64) as usize;
+                rounds.push(Round { add: first, wr: vec![W::A(1 << 20); 3], ..Default::default() });
+                rounds.push(Round { add: total - first, wr: vec![W::A(1 << 20); 3], ..Default::default() });
+            }
+            if rng.chance(1, 2) {
+                rounds.push(Round { add: 0, eof: true, wr: vec![W::A(1 << 20); 3], ..Default::default() });
+            }
         }
         _ => {
             // plain pipelines, everything in few rounds, EOF at the end
